@@ -1,0 +1,15 @@
+//go:build verif
+
+package rescache
+
+import (
+	"github.com/resgateio/resgate/server/codec"
+)
+
+// This file is only compiled with the "verif" build tag. It exports read-only
+// views of unexported routines for the external verification harness.
+
+// VerifLcs runs the unexported collection diff routine.
+func VerifLcs(a, b []codec.Value) []*ResourceEvent {
+	return lcs(a, b)
+}
